@@ -68,7 +68,7 @@ m = {
     }],
     "checks": checks,
     "not_applicable": na,
-    "notes": "All checks are static: nothing in /repo is executed and no test is run. The thorough tier repeats the quick rules on 9 build configurations and then measures the rules (it never changes the verdict on /repo): ~340 single-edit variants (audit/), 160 seeded breaking changes from independent sub-agents plus 8 own mutants on refactored forms (seeded/) that must be reported, and 200 behaviour-preserving refactorings and small harmless edits from independent sub-agents (seeded-equivalent/) on which the rules must stay silent (4 of them are known limits and still alarm, DESIGN.md 11.10) — all loaded through an in-memory overlay; a thorough run takes several minutes per property. Each check loads /repo's current working tree on every run, reports file:line + rule + construct for a violation, and writes evidence/<id>.json. known_findings.json lists open findings (none suppresses anything but its own rule+construct) and fixed ones (which suppress nothing). 'fix:' commits in /repo repair genuine defects found by these rules.",
+    "notes": "All checks are static: nothing in /repo is executed and no test is run. The thorough tier repeats the quick rules on 9 build configurations and then measures the rules (it never changes the verdict on /repo): ~340 single-edit variants (audit/), 160 seeded breaking changes from independent sub-agents plus 8 own mutants on refactored forms (seeded/) that must be reported, and 200 behaviour-preserving refactorings and small harmless edits from independent sub-agents (seeded-equivalent/) on which the rules must stay silent (3 of them are known limits and still alarm, DESIGN.md 11.10) — all loaded through an in-memory overlay; a thorough run takes several minutes per property. Each check loads /repo's current working tree on every run, reports file:line + rule + construct for a violation, and writes evidence/<id>.json. known_findings.json lists open findings (none suppresses anything but its own rule+construct) and fixed ones (which suppress nothing). 'fix:' commits in /repo repair genuine defects found by these rules.",
 }
 json.dump(m, open(os.path.join(here, "MANIFEST.json"), "w"), indent=1)
 print("checks:", [c["property_id"] for c in checks], "na:", len(na))
